@@ -410,8 +410,9 @@ def borrow_run(tier, seed, extra_tag=""):
     if os.path.exists(cpath) and not os.environ.get("BV_NOCACHE"):
         with open(cpath) as f:
             r = json.load(f)
-        r["cached"] = True
-        return r
+        if os.path.isdir(r.get("outdir", "")):
+            r["cached"] = True
+            return r
     maxlen, deep = BORROW_TIERS[tier]
     if extra_tag:
         # the search for a failing program looks one statement further
@@ -509,8 +510,9 @@ def engine_run(name, tiers, shard_fn, crash_prop, tier, seed, extra_tag=""):
     if os.path.exists(cpath) and not os.environ.get("BV_NOCACHE"):
         with open(cpath) as f:
             r = json.load(f)
-        r["cached"] = True
-        return r
+        if os.path.isdir(r.get("outdir", "")):      # the traces may have been pruned: then run again
+            r["cached"] = True
+            return r
     shards, count, maxops = tiers[tier]
     outdir = os.path.join(TRACES, key)
     os.makedirs(outdir, exist_ok=True)
